@@ -167,6 +167,22 @@ func readHeader(f *os.File) (*header, error) {
 				prevOffset, foundFileSize)
 	}
 
+	// Readers use these values to locate chunks, so they must be consistent
+	// with the chunk table (the file might be damaged).
+	if h.uncompressedSize <= 0 {
+		return nil, fmt.Errorf("invalid uncompressed size: %d", h.uncompressedSize)
+	}
+	if h.chunkSize == 0 {
+		return nil, errors.New("invalid chunk size: 0")
+	}
+	if h.compression == Zstandard {
+		expectedChunks := (h.uncompressedSize-1)/int64(h.chunkSize) + 1
+		if expectedChunks != numOffsets-1 {
+			return nil, fmt.Errorf("chunk table has %d chunks, expected %d for size %d with chunk size %d",
+				numOffsets-1, expectedChunks, h.uncompressedSize, h.chunkSize)
+		}
+	}
+
 	return &h, nil
 }
 
